@@ -6,7 +6,7 @@
   The cache `c` is ARBITRARY in every lookup theorem (in particular every state reachable by inserts, invalidation,
   reload marks, GC rounds, epoch-not-match handling), PD is an arbitrary list of regions unless stated otherwise.
 -/
-import ClientGoVerif.Proofs.Region
+import ClientGoVerif.Proofs.RegionBatch
 namespace CGV.Props.C09
 open CGV CGV.Region
 
@@ -87,70 +87,55 @@ example : ∃ c' ls, locateKeyRange 20 (locateKey Cache.empty pd2 [97]).1 pd2 [9
 /-- sorted, pairwise disjoint request ranges with start < end; only the last one may be unbounded -/
 abbrev ValidRanges := ValidRangesP
 
-/-- full statement for BatchLocateKeyRanges: the locations cover every requested range (any cache state, any PD).
-    Not proved in this generality; see `batch_lookup_gap_free_partial`.  (Before /repo commit 5462de8 it was FALSE:
-    the merger dropped a cached region with an unbounded end key — finding S8; `s8_regression` below is that
-    scenario on the repaired merger.) -/
+/-- full statement for BatchLocateKeyRanges: for every index sorted by start key (every reachable cache is, see
+    `reachable_sorted`), every PD behaviour and every sorted list of request ranges, the returned locations cover every
+    requested range.  Proved below up to a bound on the number of request ranges (`batch_lookup_gap_free_partial`). -/
 def batch_lookup_gap_free : Prop :=
   ∀ (fuel : Nat) (c c' : Cache) (pd : PD) (ranges : List KeyRange) (ls : List Region),
-    ValidRanges ranges →
+    Sorted c.sorted → ValidRanges ranges →
     batchLocateKeyRanges fuel c pd ranges = (c', .ok ls) → ∀ kr ∈ ranges, Covers ls kr.start kr.end_
 
 /-- BatchLocateKeyRanges (merger as of /repo 5462de8): whenever it answers, the locations cover every requested range
-    (unbounded ends and the last region included), for every cache state and EVERY PD behaviour, provided
-    (1) the cached regions gathered by step 1 have non-decreasing start keys (true when the index holds no overlapping
-        stale entry), and
-    (2) step 1 leaves at most one uncached range to be loaded from PD (any number of PD rounds for it).
-    This contains the S8 shape (cached head, one uncached hole, cached unbounded tail, several request ranges).
-    Several uncached ranges at once (multi-range gap check + rangesAfterKey over several ranges) are covered by the
-    differential only. -/
+    (unbounded ends and the last region included) — for every index that is sorted by start key (overlapping stale
+    entries, invalidated and need-reload entries allowed), EVERY PD behaviour (only the code's own gap check is used),
+    any number of uncached holes and PD rounds, provided the call has at most 16 * defaultRegionsPerBatch request
+    ranges (the size of one PD request).
+    What remains for the full statement: with more ranges than that, step 2 sends only a prefix of the uncached
+    ranges per round and `rangesAfterKey` trusts the end key of the last returned region for the ranges it did not
+    send; a PD answer containing a region beyond the ranges it was asked for could then skip an unsent range.  That
+    needs an assumption on PD's answers (only regions intersecting the request) and is not proved. -/
 theorem batch_lookup_gap_free_partial (fuel : Nat) (c c' : Cache) (pd : PD) (ranges : List KeyRange)
-    (ls : List Region) (hv : ValidRanges ranges)
-    (hs : StartsSorted ((batchStep1 fuel c ranges).cached.map (·.r)))
-    (hu : (batchStep1 fuel c ranges).uncached.length ≤ 1)
+    (ls : List Region) (hs : Sorted c.sorted) (hv : ValidRanges ranges)
+    (hn : ranges.length ≤ 16 * limitPerBatch)
     (h : batchLocateKeyRanges fuel c pd ranges = (c', .ok ls)) :
     ∀ kr ∈ ranges, Covers ls kr.start kr.end_ := by
   unfold batchLocateKeyRanges at h
   have hA := (batchStep1_spec (fuel := fuel) (c := c) (st := ⟨none, [], []⟩) hv
     (by intro l hl; cases hl)).2
+  have hS := batchStep1_si (fuel := fuel) hs (st := ⟨none, [], []⟩) hv
+    (by intro kr _; exact ⟨by simp [StartsSorted], by intro x hx; cases hx⟩)
+    (by simp [StartsSorted]) (by intro l hl; cases hl) (by simp [ValidRangesP]) (by intro u hu; cases hu)
   change ∀ kr ∈ ranges, ServedBy (batchStep1 fuel c ranges).cached (batchStep1 fuel c ranges).uncached kr at hA
+  change StartsSorted ((batchStep1 fuel c ranges).cached.map (·.r)) ∧
+    ValidRangesP (batchStep1 fuel c ranges).uncached ∧
+    (batchStep1 fuel c ranges).uncached.length ≤ 0 + ranges.length at hS
   simp only at h
-  generalize batchStep1 fuel c ranges = st at h hs hu hA
-  have hinit := mergerInv_init hs
-  -- in both cases: an invariant-carrying merger whose merged part covers the uncached range (if any)
-  have key : ∃ m', ls = m'.build ∧ MergerInv (st.cached.map (·.r)) m' ∧
-      ∀ u ∈ st.uncached, Covers m'.merged u.start u.end_ := by
-    cases hU : st.uncached with
-    | nil =>
-      rw [hU, batchStep2_nil] at h
+  generalize batchStep1 fuel c ranges = st at h hA hS
+  cases hb : batchStep2 fuel c pd st.uncached ⟨none, st.cached.map (·.r), []⟩ with
+  | mk c1 res =>
+    rw [hb] at h
+    cases res with
+    | error x => simp at h
+    | ok m' =>
       simp only [Prod.mk.injEq, Except.ok.injEq] at h
-      exact ⟨_, h.2.symm, hinit, by intro u hu'; cases hu'⟩
-    | cons u rest =>
-      cases rest with
-      | cons u2 rest2 => rw [hU] at hu; simp at hu
-      | nil =>
-        rw [hU] at h
-        cases hb : batchStep2 fuel c pd [u] ⟨none, st.cached.map (·.r), []⟩ with
-        | mk c1 res =>
-          rw [hb] at h
-          cases res with
-          | error x => simp at h
-          | ok m' =>
-            simp only [Prod.mk.injEq, Except.ok.injEq] at h
-            have hb' : batchStep2 fuel c pd [⟨u.start, u.end_⟩] ⟨none, st.cached.map (·.r), []⟩ = (c1, .ok m') := hb
-            have := batchStep2_single hb' hinit (covUpTo_init u.start u.end_)
-            refine ⟨m', h.2.symm, this.1, ?_⟩
-            intro u' hu'
-            simp only [List.mem_singleton] at hu'
-            subst hu'
-            exact this.2
-  obtain ⟨m', rfl, hinv, hcovU⟩ := key
-  obtain ⟨hb1, hb2⟩ := build_covers hinv
-  intro kr hkr k hk1 hk2
-  rcases hA kr hkr k hk1 hk2 with ⟨ce, hce, hcc⟩ | ⟨u, hu', hu1, hu2⟩
-  · exact hb2 ce.r (List.mem_map.mpr ⟨ce, hce, rfl⟩) k hcc
-  · obtain ⟨l, hl, hlc⟩ := hcovU u hu' k hu1 hu2
-    exact ⟨l, hb1 l hl, hlc⟩
+      obtain ⟨_, rfl⟩ := h
+      obtain ⟨hinv, _, hcovU⟩ := batchStep2_spec hb (mergerInv_init hS.1) hS.2.1 (by omega)
+      obtain ⟨hb1, hb2⟩ := build_covers hinv
+      intro kr hkr k hk1 hk2
+      rcases hA kr hkr k hk1 hk2 with ⟨ce, hce, hcc⟩ | ⟨u, hu', hu1, hu2⟩
+      · exact hb2 ce.r (List.mem_map.mpr ⟨ce, hce, rfl⟩) k hcc
+      · obtain ⟨l, hl, hlc⟩ := hcovU u hu' k hu1 hu2
+        exact ⟨l, hb1 l hl, hlc⟩
 
 def pd3 : PD :=
   [⟨⟨1, [], some [103], 1, 0⟩, 1, [1, 2, 3]⟩, ⟨⟨2, [103], some [116], 2, 0⟩, 1, [1, 2, 3]⟩, ⟨⟨3, [116], none, 1, 0⟩, 1, [1, 2, 3]⟩]
@@ -165,12 +150,11 @@ theorem s8_regression :
       .ok [⟨1, [], some [103], 1, 0⟩, ⟨3, [116], none, 1, 0⟩] := rfl
 
 /-- the hypotheses of `batch_lookup_gap_free_partial` hold in the S8 scenario -/
-example : ValidRanges [⟨[97], [98]⟩, ⟨[117], []⟩] ∧
-    StartsSorted ((batchStep1 20 warmLast [⟨[97], [98]⟩, ⟨[117], []⟩]).cached.map (·.r)) ∧
-    (batchStep1 20 warmLast [⟨[97], [98]⟩, ⟨[117], []⟩]).uncached.length ≤ 1 := by
-  refine ⟨⟨by decide, by decide, Or.inl rfl⟩, ?_, by decide⟩
-  have : (batchStep1 20 warmLast [⟨[97], [98]⟩, ⟨[117], []⟩]).cached.map (·.r) = [⟨3, [116], none, 1, 0⟩] := rfl
-  rw [this]; simp [StartsSorted]
+example : Sorted warmLast.sorted ∧ ValidRanges [⟨[97], [98]⟩, ⟨[117], []⟩] ∧
+    ([⟨[97], [98]⟩, ⟨[117], []⟩] : List KeyRange).length ≤ 16 * limitPerBatch := by
+  refine ⟨?_, ⟨by decide, by decide, Or.inl rfl⟩, by decide⟩
+  have : warmLast.sorted = [⟨⟨3, [116], none, 1, 0⟩, true, false, 1, [1, 2, 3]⟩] := rfl
+  rw [this]; simp [Sorted]
 
 /-! ## no regression -/
 
